@@ -88,8 +88,8 @@ Lemma raw_got_event_PJA : forall s j, J true s -> Acc s -> (j = KICK_RAW \/ (inr
   PJA true s (raw_got_event sc s j).
 Proof.
   intros s j Jh A JR. unfold raw_got_event.
-  pose proof (ksame_read (kern s) (rw_rfd s j) (if efd_raw s =? 0 then 1024 else 8)) as KS.
-  destruct (k_read (kern s) (rw_rfd s j) (if efd_raw s =? 0 then 1024 else 8)) as [k1 [n|e]]; cbn [fst] in KS.
+  pose proof (ksame_read (kern s) (rw_rfd s j) (if raw_is_pipe s j then 1024 else 8)) as KS.
+  destruct (k_read (kern s) (rw_rfd s j) (if raw_is_pipe s j then 1024 else 8)) as [k1 [n|e]]; cbn [fst] in KS.
   - destruct (n =? 0); [exact Logic.I|].
     pose proof (J_set_kern_plain true s k1 Jh KS) as J1.
     set (s1 := set_kern s k1) in *.
@@ -393,7 +393,7 @@ Proof.
   - constructor; reflexivity.
   - constructor; reflexivity.
   - destruct (rw_reg s j); cbn [ARes]; [|apply AW_refl]. unfold raw_post.
-    destruct (if efd_raw _ =? 0 then _ else _) as [k1 x]. constructor; reflexivity.
+    destruct (if raw_is_pipe _ _ then _ else _) as [k1 x]. constructor; reflexivity.
   - constructor; reflexivity.
 Qed.
 
